@@ -200,8 +200,12 @@ def _call(a, k, nrows, rows, forms, strat, mode, obs):
     if mode == "load":
       e = load_document(k, nrows, forms, strat)
       obs.append(({r: r for r in rows}, observe(e, k, rows)))
-      eng.apply(e, [["BulkUpdateRecord", "T", rows, {"n": [r + 4 for r in rows]}]])
-      obs.append(({r: r + 4 for r in rows}, observe(e, k, rows)))
+      # a data edit that re-dirties every cell, under EVERY order of the k columns
+      for i, p in enumerate(a.get("edit_perms", [a["perm"]])):
+        C06.set_strategy(e, C06.Strategy("index", {c: (p, 0) for c in range(64)}))
+        n_of = {r: r + 4 * (i + 1) for r in rows}
+        eng.apply(e, [["BulkUpdateRecord", "T", rows, {"n": [n_of[r] for r in rows]}]])
+        obs.append((n_of, observe(e, k, rows)))
     else:
       key = (k, nrows)
       if key not in _long_lived:
@@ -315,14 +319,21 @@ def random_graphs(k, rng, n, p=0.25):
 
 
 def cases(tier, seed):
+  """Every graph of the stated space.  Per graph: 'load' = Calculate on load under one order
+  (rotating over the k! orders along the enumeration; thorough: every order) followed by a data
+  edit re-dirtying every cell under EVERY order; 'modify' = the ModifyColumn transition from the
+  acyclic base document under one rotating order (thorough: every order)."""
+  every = tier == "thorough"
   for mode in ("load", "modify"):
-    for k in (1, 2, 3):
-      for g in single_row_graphs(k):
-        for perm in range(math.factorial(k)):
-          yield {"k": k, "rows": 1, "graph": g, "perm": perm, "mode": mode}
-    for g in cross_row_graphs_k2():
-      for perm in range(2):
-        yield {"k": 2, "rows": 2, "graph": g, "perm": perm, "mode": mode}
+    for k, nrows, graphs in ((1, 1, single_row_graphs(1)), (2, 1, single_row_graphs(2)),
+                             (3, 1, single_row_graphs(3)), (2, 2, cross_row_graphs_k2())):
+      nperm = math.factorial(k)
+      for gi, g in enumerate(graphs):
+        for perm in (range(nperm) if every else [(gi + seed) % nperm]):
+          a = {"k": k, "rows": nrows, "graph": g, "perm": perm, "mode": mode}
+          if mode == "load":
+            a["edit_perms"] = list(range(nperm))
+          yield a
 
 
 def sampled_cases(tier, seed):
@@ -345,6 +356,7 @@ def nontrivial(a, r, exc):
 
 def show(a):
   return {"k": a["k"], "rows": a["rows"], "mode": a["mode"], "perm": a["perm"],
+          "edit_perms": a.get("edit_perms"),
           "formulas": formulas_of(a["k"], a["graph"])}
 
 
@@ -388,12 +400,15 @@ def main():
     "cells that depend on a cycle without lying on it are not constrained by the statement",
   ]
   rep.coverage["rule"] = (
-    "one evaluation = one (graph, evaluation order, installation mode) case run on the real engine "
-    "with all three clauses checked on every cell (load mode: also after a data edit re-dirtying "
-    "all cells); exhaustive part: all 2^(k*k) same-row graphs for k = 1, 2, 3 under all k! orders "
-    "and all 4^4 = 256 symmetric cross-row graphs for k = 2 with two rows under both orders, in "
-    "both modes; sampled part (not exhaustive): asymmetric two-row graphs and k = 4 (k = 5 in "
-    "thorough); non-trivial = the graph has at least one cell on a cycle")
+    "one evaluation = one (graph, installation mode) case run on the real engine with all three "
+    "clauses checked on every cell after every step; exhaustive part: all 2^(k*k) same-row graphs "
+    "for k = 1, 2, 3 and all 4^4 = 256 symmetric cross-row graphs for k = 2 with two rows, each in "
+    "both modes; per graph, 'load' = Calculate on load under one evaluation order (rotating over "
+    "the k! orders along the enumeration; thorough tier: a case per order) followed by a data edit "
+    "re-dirtying every cell under EVERY one of the k! orders, 'modify' = the ModifyColumn "
+    "transition from the acyclic base document under one rotating order (thorough: every order); "
+    "sampled part (not exhaustive): asymmetric two-row graphs and k = 4 (k = 5 in thorough); "
+    "non-trivial = the graph has at least one cell on a cycle")
   C06.install_hook()
   for key in ((1, 1), (2, 1), (3, 1), (2, 2), (4, 1), (5, 1)):   # warm-up in the parent: forked
     template(*key)                                                # workers inherit the documents
@@ -403,8 +418,9 @@ def main():
   fn.check(rep, contract("Engine.apply_user_actions [sampled: asymmetric cross-row, k=4,5]"),
            sampled_cases, limit_quick_s=15)
   rep.coverage["exhaustive"] = exhaustive
-  rep.coverage["exhaustive_scope"] = ("graphs over k<=3 same-row formula columns (2+16+512) x k! "
-                                      "orders, 256 cross-row k=2 graphs x 2 orders, x 2 modes")
+  rep.coverage["exhaustive_scope"] = ("all graphs over k<=3 same-row formula columns (2+16+512) and "
+                                      "all 256 symmetric cross-row graphs for k=2, x 2 modes; "
+                                      "orders as described in rule")
   try:
     import time
     if common.tier() == "quick" and time.time() - rep.t0 > 70:
